@@ -48,6 +48,11 @@ func c10Histories(tier string) [][]string {
 			out = append(out, []string{ok[1], f1, f2, ok[6], ok[2], ok[7]})
 		}
 	}
+	// what earlier inputs memoized stays memoized: log() lines are not replayed on a cache hit, so they show a lost cache
+	// (only failing inputs that define nothing: redefining a function legitimately flushes the cache)
+	for _, f1 := range []string{`!undefined_name`, `![1,2,3][b:a][0]()`, `!for i=3 {if i==1 {error("x")}; i}`, `!for j = 2 {for i = 2 {[1][i+5]}}`, `!(func(n){self(n+1)})(0)`, `!for i = 3 {(func(n){self(n+1)})(i)}`, `!(n => 10 / n)(a - a)`} {
+		out = append(out, []string{`func lg(u){log("in lg", u); println("out", u); u * 2}`, `lg(3)`, f1, `lg(3)`, `lg(4)`, f1, `lg(4)`, `lg(3)`})
+	}
 	// definitions made between two failures, used after the second one
 	for _, f1 := range fail {
 		out = append(out, []string{ok[9], f1, `w=5; func dbl(z){z*2}`, fail[8], `println(w, dbl(4), u, n)`, fail[0], `println(w, dbl(w))`})
